@@ -609,6 +609,16 @@ impl Stdfs {
 
         // Iterate over source taking into account link following
         let src_root = StdfsEntry::from(&src_root)?.follow(cp.follow);
+
+        // Copying onto itself is a no-op and a directory can't be copied into itself as the copy
+        // would be reading what it is writing
+        let dst_base = if copy_into { dst_root.mash(src_root.path().base()?) } else { dst_root.clone() };
+        if dst_base == src_root.path() {
+            return Ok(());
+        } else if src_root.is_dir() && dst_base.starts_with(src_root.path()) {
+            return Err(PathError::dir_does_not_match_parent(dst_base).into());
+        }
+
         for entry in Stdfs::entries(src_root.path())?.follow(cp.follow) {
             let src = entry?;
 
